@@ -305,7 +305,7 @@ theorem pipeline_reply_at_position (cfg : Cfg) {h : Dispatch D R} (hh : Honest h
     | nil => intro s; rfl
     | cons x xs ih => intro s; simp [Code.runFrames, ih]
   rw [hk]
-  simp [List.getElem?_append_right, hlen]
+  simp [hlen]
 
 /-! ### The property -/
 
@@ -377,11 +377,13 @@ theorem no_access_without_auth_tree_fixed (hfix : Gen.preGate = []) {h : Dispatc
     connection is registered as a replica (it then receives every later write). -/
 theorem sync_before_gate_leaks (cfg : Cfg) (h : Dispatch D R) (s : Server D) (c : Nat) (name : Bytes) (args : List Arg)
     (hn : cfg.normLoop name = SYNC) (hpre : SYNC ∈ cfg.preGate) :
-    Code.processConnectionFrame cfg h s c (.cmd name args) =
-      ({ s with replicas := c :: s.replicas }, .fullResync s.store) := by
+    Code.processConnectionFrame cfg h s c (.cmd name args) = (Code.registerReplica s c, .fullResync s.store) ∧
+    c ∈ (Code.registerReplica s c).replicas := by
   unfold Code.processConnectionFrame
   simp only [hn, hpre, if_true]
-  simp [Code.syncCommand, Code.registerReplica]
+  refine ⟨by simp [Code.syncCommand], ?_⟩
+  unfold Code.registerReplica
+  by_cases hc : c ∈ s.replicas <;> simp [hc]
 
 /-- A password-protected server with a canary key, one fresh (unauthenticated) connection. -/
 def witnessServer : Server KS.Store :=
